@@ -407,6 +407,13 @@ func steered(kind int, r *rand.Rand, salt uint64) (string, string) {
 	if r.Intn(2) == 0 {
 		cfg.timeout = time.Millisecond
 	}
+	if kind/2 == 2 {
+		// the call cancelled while it waits for its batch must have no other way out: no timer, batch never full
+		cfg.timeout = time.Hour
+		if cfg.bs < 2 {
+			cfg.bs = 2
+		}
+	}
 	s := newWScenario(cfg, salt)
 	switch kind / 2 {
 	case 0:
